@@ -183,7 +183,7 @@ func runC07(args []string) error {
 	}
 	r := rf.rng()
 	sum := &Summary{Engine: "c07", Seed: rf.Seed,
-		Rule: "restores through the real table.Manager on a single-node dragonboat NodeHost (in-memory FS): source tables of 0-12 pairs with values from empty to 300 KiB (thorough: 2 MiB) captured by the real commandSnapshot into a real snapshot file (snappy + length frames), shipped through snapshot.Writer/Reader with chunk sizes from 1 byte to 1 MiB, with and without the final index message, while a writer modifies the source table mid-capture; MaxInMemLogSize in {0, values placing the batch threshold on every record position, default}; restore over an existing table with other content; observed: full range and leader index of the restored table. Plus framing cases (message lists x chunk sizes) through real snapshot files. distinct = distinct (content, setting, chunking); non-trivial = at least 3 pairs and a threshold that cuts inside the stream"}
+		Rule: "restores through the real table.Manager on a single-node dragonboat NodeHost (in-memory FS): source tables of 0-12 pairs with values from empty to 300 KiB (thorough: 2 MiB) captured by the real commandSnapshot into a real snapshot file (snappy + length frames), shipped through snapshot.Writer/Reader with chunk sizes from 1 byte to 1 MiB, with and without the final index message, while a writer modifies the source table mid-capture; MaxInMemLogSize in {0, values placing the batch threshold on every record position, default}; restore over an existing table with other content, every third one after an earlier restore of other content that broke off mid-stream; observed: full range and leader index of the restored table. Plus framing cases (message lists x chunk sizes) through real snapshot files. distinct = distinct (content, setting, chunking); non-trivial = at least 3 pairs and a threshold that cuts inside the stream"}
 	var nh *dragonboat.NodeHost
 	var members map[uint64]string
 	if !framingOnly {
@@ -321,6 +321,47 @@ func runC07(args []string) error {
 		if os.Getenv("VERIF_DEBUG") != "" {
 			fmt.Fprintf(os.Stderr, "plan %d: n=%d maxInMem=%d final=%v\n", c, p.n, p.maxInMem, p.final)
 		}
+		interrupted := c%3 == 1 && p.n >= 3
+		if interrupted {
+			// an earlier attempt with OTHER content that breaks off in the middle of the stream: nothing of it may be
+			// part of the table after the restore that follows
+			src0, _, err := newRealFSM(pvfs.NewMem(), fsm.RecoveryTypeSnapshot)
+			if err != nil {
+				return err
+			}
+			var es0 []gEntry
+			for i := 0; i < 10; i++ {
+				es0 = append(es0, gEntry{Idx: uint64(i + 1), Cmd: gCmd{Kind: regattapb.Command_PUT, K: []byte(fmt.Sprintf("int-%03d", i)), V: bytes.Repeat([]byte{'i'}, 250)}})
+			}
+			es0 = append(es0, gEntry{Idx: 11, Cmd: gCmd{Kind: regattapb.Command_PUT, K: content[0][0], V: []byte("interrupted attempt")}})
+			if _, _, err := src0.apply(es0); err != nil {
+				return err
+			}
+			file0, path0, _, _, err := captureTable(src0, true, []int{1 << 20}, nil)
+			src0.close()
+			if err != nil {
+				return err
+			}
+			sf0, err := snapshot.OpenFile(path0)
+			if err != nil {
+				return err
+			}
+			_ = file0.Close()
+			done0 := make(chan error, 1)
+			go func() { done0 <- tm.Restore(name, &failingReader{r: sf0, n: 9}) }()
+			var err0 error
+			select {
+			case err0 = <-done0:
+			case <-time.After(90 * time.Second):
+				return fmt.Errorf("interrupted restore did not return within 90s: n=%d maxInMem=%d", p.n, p.maxInMem)
+			}
+			_ = sf0.Close()
+			_ = os.Remove(path0)
+			if err0 == nil {
+				return fmt.Errorf("harness: the interrupted restore did not fail")
+			}
+			hs.Inc("after-interrupted-attempt")
+		}
 		done := make(chan error, 1)
 		go func() { done <- tm.Restore(name, sf) }()
 		var rerr error
@@ -373,6 +414,9 @@ func runC07(args []string) error {
 			final = fmt.Sprintf("(Some %d)", idx)
 		}
 		d := fmt.Sprintf("n=%d valLen=%v maxInMem=%d final=%v chunks=%v", p.n, p.valLen, p.maxInMem, p.final, chunkSizes)
+		if interrupted {
+			d += " after an interrupted restore of other content"
+		}
 		cf.Add(fmt.Sprintf("{| r_content := %s; r_final := %s; r_sizes := %s; r_maxinmem := %d; r_impl := %s |}", cList(cont), final, cList(szs), p.maxInMem, impl), d)
 		hs.Inc(fmt.Sprintf("maxInMem=%d", p.maxInMem))
 		sum.Evaluations++
